@@ -105,6 +105,14 @@ def build(spec, root=True):
                 kw["default"] = _default(d["default"])
             name = d["name"] if d.get("positional") else "--" + d["name"]
             p.add_argument(name, **kw)
+        elif k == "jsonnet":
+            from jsonargparse import ActionJsonnet
+
+            p.add_argument("--" + d["name"], action=ActionJsonnet(), **({"default": d["default"]} if "default" in d else {}))
+        elif k == "jsonschema":
+            from jsonargparse import ActionJsonSchema
+
+            p.add_argument("--" + d["name"], action=ActionJsonSchema(schema=d["schema"]), **({"default": d["default"]} if "default" in d else {}))
         elif k == "cfg":
             p.add_argument("--" + d.get("name", "cfg"), action=ActionConfigFile)
         elif k == "class":
